@@ -1,10 +1,10 @@
-import MahfModel.Model.RegistryX
+import MahfModel.Model.RegistryH
 open MahfModel
 
 /-- K: the code-shaped model's outputs equal the implementation's; O: the implementation's outputs equal
 what the abstract stack of maps answers. -/
 def c01 (input implOut : Sexp) : Option Verdict := do
-  let (model, spec) ← RegistryX.handleHistoryX input
+  let (model, spec) ← RegistryH.handleHistoryH input
   let agree := Sexp.beq model implOut
   let holds := Sexp.beq spec implOut
   pure { agree, holds, cls := if holds then "-" else "wrong-value", model }
